@@ -201,16 +201,16 @@ impl Ctx {
         let sup: Vec<u32> = self.support(d).iter().copied().collect();
         let mut cands: Vec<u32> = vec![];
         for p in self.preferred_pivots.clone().iter().rev() {
-            if sup.contains(p) && !self.pivots.contains(p) {
+            if sup.contains(p) && !self.pivots.contains(p) && matches!(self.nodes[*p as usize], Node::Var(_)) {
                 cands.push(*p);
             }
         }
         // newest variables first; Var atoms before Uf atoms
         let mut vars: Vec<u32> = sup.iter().copied().filter(|a| matches!(self.nodes[*a as usize], Node::Var(_))).collect();
         vars.sort_by(|a, b| b.cmp(a));
-        let mut ufs: Vec<u32> = sup.iter().copied().filter(|a| matches!(self.nodes[*a as usize], Node::Uf(..))).collect();
-        ufs.sort_by(|a, b| b.cmp(a));
-        for v in vars.into_iter().chain(ufs.into_iter()) {
+        // hash outputs are never pivots: "some hash function makes these equal" is not a path
+        // worth exploring (rule GR covers those comparisons)
+        for v in vars.into_iter() {
             if !self.pivots.contains(&v) && !cands.contains(&v) {
                 cands.push(v);
             }
